@@ -9,6 +9,10 @@ import numpy as np
 from vlib import core
 from vlib.core import Outcome, line
 
+def F(*a):
+  return Fraction(*a)
+
+
 SHAPES = [[], [3], [2, 2], [1], [2, 0]]
 KINDS = ['jf32', 'ji32', 'nf32', 'nf64', 'ni32']
 WEIGHT_POOL = [0, 1, 2, 0.5, 3, 0.25, 5, 10, 100]
@@ -20,8 +24,6 @@ PYTHAG = [[3, 4], [1, 2, 2], [2, 3, 6], [1, 4, 8], [4, 4, 7], [2, 6, 9], [6, 6, 
           [2, 4, 5, 6], [1], [5, 12], [8, 15], [1, 2, 2, 4, 10], [0, 0, 0]]
 
 
-def F(*a):
-  return Fraction(*a)
 
 
 def size_of(shape):
@@ -31,8 +33,24 @@ def size_of(shape):
   return n
 
 
+# dyadic rescalings of the trees (exponent of 2).  Tiny scales reach norms of ~1e-12 (2^-40); float32 squared
+# norms are still normal numbers there (>= ~1e-25; they underflow only below norm ~1e-19), so every clause can
+# be judged relative to the tree's own magnitude.  2^+20 gives norms ~1e7 (squares ~1e14, far below overflow).
+SCALES_TINY = [-20, -24, -30, -36, -40]
+SCALE_BIG = 20
+# bound / norm for the clip cases: clearly and just above / below the norm, and at it
+FACTORS_EXACT = [F(1, 2), F(1), F(2), F(1, 4), F(3, 2), F(1), F(1, 8), F(16), F(1025, 1024), F(1023, 1024),
+                 F(1025, 1024), F(5, 4)]
+FACTORS_FLOAT = [0.5, 0.99, 1.01, 1.5, 2.0, 0.125, 8.0, 1.01, 1.05]
+
+
 def tol(S, model):
-  return 1e-5 * float(S) + 1e-4 * abs(float(model)) + 1e-30
+  # purely relative (S and model carry the magnitude of the case); 1e-37 ~ smallest normal float32
+  return 1e-5 * float(S) + 1e-4 * abs(float(model)) + 1e-37
+
+
+def pow2(e):
+  return Fraction(2) ** e
 
 
 def exact_sqrt(q: Fraction):
@@ -50,7 +68,9 @@ class C07(core.Property):
   RULE = ('cases (op in tree_sum/tree_mean/mean_aggregator/tree_clip_by_global_norm/tree_weight/'
           'tree_inverse_weight; 1..6 clients; 1..3 leaves with shapes (),(3,),(2,2),(1,),(2,0); jax/numpy '
           'float32/float64/int32 leaves; weights incl. all-zero / single positive / equal; list, generator, iter, '
-          'tuple, map inputs; a permutation of the clients); non-trivial = every realistic wrong variant '
+          'tuple, map inputs; a permutation of the clients; every tree kind also rescaled by 2^-20..2^-40 and 2^+20, '
+          'mean weights by 2^-10/2^+10; clip bounds at, just above/below (x(1 +- 2^-10), +-1%) and far from the norm at every '
+          'scale; every clause judged relative to the magnitude of the case); non-trivial = every realistic wrong variant '
           '(unweighted mean, divide by count, no division, first tree only; for clip: identity, scale without '
           'min) differs from the right value by > 100x the comparison tolerance in some coordinate; '
           'distinct by case digest')
@@ -61,7 +81,11 @@ class C07(core.Property):
              '(value snapshots, is_deleted(), buffer pointers), not proved',
              'pytree flattening order and leaf shapes/dtypes are glue, exercised by the generator']
   ASSUMPTIONS = ['weights are non-negative finite numbers well inside the float32 range; all trees of a call '
-                 'share one structure (the real code raises otherwise); clip bound > 0']
+                 'share one structure (the real code raises otherwise); clip bound > 0',
+                 'float32 range: generated magnitudes stay in [2^-42, 2^24] so that products, squares (>= ~1e-25) and sums '
+                 'are normal float32 numbers; below a global norm of ~1e-19 the squared norm underflows and above ~1e19 it '
+                 'overflows - those ranges (and int32 leaves large enough to overflow vdot) are outside the exact model and '
+                 'are not generated']
   QUICK_BUDGET_S = 100
   THOROUGH_BUDGET_S = 540
 
@@ -121,9 +145,12 @@ class C07(core.Property):
       ws = [int(w) if float(w).is_integer() else int(w * 4) for w in ws]
     perm = list(range(n))
     rng.shuffle(perm)
+    has_int = any(k.endswith('i32') for _, k in spec)
+    scale = 0 if (has_int or rng.random() < 0.6) else rng.choice(SCALES_TINY + [SCALE_BIG])
+    wscale = 0 if (wkind == 'int' or op == 'sum' or rng.random() < 0.75) else rng.choice([-10, 10])
     return {'op': op, 'spec': spec, 'trees': trees, 'weights': ws, 'wkind': wkind,
             'form': rng.choice(FORMS), 'perm': perm, 'container': rng.choice(CONTAINERS),
-            'as_numpy': [rng.random() < 0.15 for _ in range(n)]}
+            'as_numpy': [rng.random() < 0.15 for _ in range(n)], 'scale': scale, 'wscale': wscale}
 
   def _clip_case(self, rng):
     spec = self._rand_spec(rng)
@@ -145,21 +172,31 @@ class C07(core.Property):
       flat = [int(v) for v in flat]
     nrm2 = sum(F(v) * F(v) for v in flat)
     ex = exact_sqrt(nrm2)
+    # the tree is rescaled by 2^scale and the bound with it ('M' is the bound at scale 0): the relation
+    # bound/norm is what the clauses depend on, at every magnitude
+    r = rng.random()
+    scale = 0 if (all_int or r < 0.4) else (SCALE_BIG if r < 0.5 else rng.choice(SCALES_TINY))
     if ex is not None and ex > 0:
-      M = float(ex * rng.choice([F(1, 2), F(1), F(2), F(1, 4), F(3, 2), F(1), F(1, 8), F(16)]))
+      M = float(ex * rng.choice(FACTORS_EXACT))
+    elif ex is None and (scale != 0 or rng.random() < 0.5):
+      M = math.sqrt(nrm2) * rng.choice(FACTORS_FLOAT)     # >= 1% away from the (inexact) norm
     else:
       M = rng.choice([0.5, 1, 2, 3, 10, 1000, 0.125])
-      if ex is None and abs(M - math.sqrt(nrm2)) < 1e-3 * M:
+      if ex is None and abs(M - math.sqrt(nrm2)) < 1e-2 * M:
         M = M * 2
+    M = float(np.float32(M))      # the bound the real code sees (a python float is rounded to float32)
     mkind = rng.choice(WKINDS)
     if mkind == 'int':
-      M = max(1, int(M))
+      if scale != 0:
+        mkind = 'float'
+      else:
+        M = max(1, int(M))
     tree, i = [], 0
     for s, _ in spec:
       tree.append(flat[i:i + size_of(s)])
       i += size_of(s)
     return {'op': 'clip', 'spec': spec, 'trees': [tree], 'M': M, 'mkind': mkind,
-            'container': rng.choice(CONTAINERS), 'as_numpy': [rng.random() < 0.15]}
+            'container': rng.choice(CONTAINERS), 'as_numpy': [rng.random() < 0.15], 'scale': scale}
 
   def _weight_case(self, rng):
     spec = self._rand_spec(rng)
@@ -169,8 +206,10 @@ class C07(core.Property):
     wkind = rng.choice(WKINDS)
     if wkind == 'int':
       w = int(w) if float(w).is_integer() else int(w * 4)
+    has_int = any(k.endswith('i32') for _, k in spec)
+    scale = 0 if (has_int or rng.random() < 0.6) else rng.choice(SCALES_TINY + [SCALE_BIG])
     return {'op': op, 'spec': spec, 'trees': [tree], 'w': w, 'wkind': wkind,
-            'container': rng.choice(CONTAINERS), 'as_numpy': [rng.random() < 0.15]}
+            'container': rng.choice(CONTAINERS), 'as_numpy': [rng.random() < 0.15], 'scale': scale}
 
   def gen_cases(self, rng, tier):
     if tier == 'thorough':
@@ -187,7 +226,21 @@ class C07(core.Property):
             rng.shuffle(perm)
             yield {'op': ['mean', 'agg'][cnt % 2], 'spec': spec, 'trees': trees, 'weights': list(ws),
                    'wkind': 'float', 'form': FORMS[cnt % len(FORMS)], 'perm': perm,
-                   'container': CONTAINERS[cnt % 3], 'as_numpy': [False] * n}
+                   'container': CONTAINERS[cnt % 3], 'as_numpy': [False] * n,
+                   'scale': [0, -30, 20, -40][cnt % 4], 'wscale': 0}
+      # clip: every Pythagorean base x every bound/norm factor x every scale
+      cnt = 0
+      for base in PYTHAG:
+        ex = exact_sqrt(sum(F(v) * F(v) for v in base))
+        if not ex:
+          continue
+        for fac in sorted(set(FACTORS_EXACT)):
+          for scale in [0, SCALE_BIG] + SCALES_TINY:
+            cnt += 1
+            yield {'op': 'clip', 'spec': [[[len(base)], ['jf32', 'nf32'][cnt % 2]]],
+                   'trees': [[[v * (-1) ** (i + cnt) for i, v in enumerate(base)]]], 'M': float(ex * fac),
+                   'mkind': ['float', 'np32', 'jnp'][cnt % 3], 'container': CONTAINERS[cnt % 3],
+                   'as_numpy': [False], 'scale': scale}
     n = {'quick': 700, 'thorough': 6000}.get(tier, 1500)
     for i in range(n):
       r = rng.random()
@@ -224,6 +277,13 @@ class C07(core.Property):
         yield {**case, key: simple}
     if any(case['as_numpy']):
       yield {**case, 'as_numpy': [False] * n}
+    if case.get('wscale', 0):
+      yield {**case, 'wscale': 0}
+    sc = case.get('scale', 0)
+    if sc:
+      for cand in (0, sc // 2, sc + (1 if sc < 0 else -1)):
+        if cand != sc and abs(cand) < abs(sc):
+          yield {**case, 'scale': cand}
     if any(k != 'jf32' for _, k in case['spec']) and not any(k.endswith('i32') for _, k in case['spec']):
       yield {**case, 'spec': [[s, 'jf32'] for s, _ in case['spec']]}
     for ci, t in enumerate(case['trees']):
@@ -252,9 +312,17 @@ class C07(core.Property):
       return {'p0': leaves[0], 'sub': {f'q{i}': l for i, l in enumerate(leaves[1:])}}
     return {f'p{i}': l for i, l in enumerate(leaves)}
 
+  @staticmethod
+  def _scaled(case):
+    """effective (rescaled) leaf values of every tree, as exact rationals"""
+    sc = pow2(case.get('scale', 0))
+    return [[[F(v) * sc for v in l] for l in t] for t in case['trees']]
+
   def _build(self, case):
     trees = []
-    for ci, t in enumerate(case['trees']):
+    int_kinds = [k.endswith('i32') for _, k in case['spec']]
+    for ci, t in enumerate(self._scaled(case)):
+      t = [[int(v) if isint else float(v) for v in l] for l, isint in zip(t, int_kinds)]
       leaves = [self._leaf(v, s, k, case['as_numpy'][ci]) for v, (s, k) in zip(t, case['spec'])]
       trees.append(self._tree(leaves, case['container']))
     return trees
@@ -356,10 +424,11 @@ class C07(core.Property):
   def _eval_mean(self, case, ctx):
     op, n = case['op'], len(case['trees'])
     trees = self._build(case)
-    ws = [self._conv_w(w, case['wkind']) for w in case['weights']]
+    wsc = pow2(case.get('wscale', 0))
+    fw = [F(w) * wsc for w in case['weights']]
+    ws = [self._conv_w(int(w) if case['wkind'] == 'int' else float(w), case['wkind']) for w in fw]
     snap = self._snapshot(trees)
-    fw = [F(w) for w in case['weights']]
-    flat_in = [[F(v) for l in t for v in l] for t in case['trees']]
+    flat_in = [[v for l in t for v in l] for t in self._scaled(case)]
     m = len(flat_in[0])
     W = sum(fw)
     problems, corr, key = [], [], None
@@ -453,6 +522,7 @@ class C07(core.Property):
       nontrivial = all(any(abs(float(x - y)) > 100 * tol(S[k], y) for k, (x, y) in enumerate(zip(wr, want)))
                        for wr in wrongs)
     tags = (f'op={op}', f'n={n}', f'form={case["form"]}', f'wkind={case["wkind"]}',
+            f'scale=2^{case.get("scale", 0)}', f'wscale=2^{case.get("wscale", 0)}',
             'W=0' if (op != 'sum' and W == 0) else 'W>0', f'leaves={len(case["spec"])}',
             'numpy-input' if any(case['as_numpy']) or any(k[0] == 'n' for _, k in case['spec']) else 'jax-input')
     return Outcome(oracle_fail='; '.join(problems[:4]) or None, corr_fail='; '.join(corr[:3]) or None,
@@ -463,10 +533,11 @@ class C07(core.Property):
   def _eval_clip(self, case, ctx):
     trees = self._build(case)
     tree = trees[0]
-    M = self._conv_w(case['M'], case['mkind'])
-    fM = F(case['M']) if case['mkind'] != 'int' else F(int(case['M']))
+    scale = case.get('scale', 0)
+    fM = (F(case['M']) if case['mkind'] != 'int' else F(int(case['M']))) * pow2(scale)
+    M = self._conv_w(int(fM) if case['mkind'] == 'int' else float(fM), case['mkind'])
     snap = self._snapshot(trees)
-    x = [F(v) for l in case['trees'][0] for v in l]
+    x = [v for l in self._scaled(case)[0] for v in l]
     nrm2 = sum(v * v for v in x)
     ex = exact_sqrt(nrm2)
     nrm = ex if ex is not None else F(math.sqrt(nrm2))
@@ -493,13 +564,13 @@ class C07(core.Property):
     if got is not None:
       xf = [float(v) for v in x]
       scale_in = max([abs(v) for v in xf] + [0.0])
-      eps = 1e-5 * scale_in + 1e-30
+      eps = 1e-5 * scale_in          # relative to the tree's own magnitude
       if any(not math.isfinite(g) for g in got):
         fail('nan', f'non-finite output {got}')
       else:
         # (a) norm at most the bound
         on = math.sqrt(sum(g * g for g in got))
-        if on > float(fM) * (1 + 1e-5) + 1e-30:
+        if on > float(fM) * (1 + 1e-5):
           fail('norm', f'norm of the result {on} exceeds the bound {float(fM)}')
         # (b) unchanged direction: out = s * x for one s in (0, 1]
         if scale_in > 0:
@@ -531,7 +602,7 @@ class C07(core.Property):
           corr.append(f'coordinate {k}: implementation {got[k]} vs model {float(model[k])}')
           break
     nontrivial = nrm2 > fM * fM and nrm2 > 0 and abs(float(nrm) - float(fM)) > 1e-2 * float(fM)
-    tags = ('op=clip', 'exact-norm' if ex is not None else 'float-norm',
+    tags = ('op=clip', f'scale=2^{scale}', 'exact-norm' if ex is not None else 'float-norm',
             'zero-tree' if nrm2 == 0 else ('above-bound' if nrm2 > fM * fM else ('at-bound' if nrm2 == fM * fM else 'below-bound')),
             f'mkind={case["mkind"]}', f'leaves={len(case["spec"])}')
     return Outcome(oracle_fail='; '.join(problems[:4]) or None, corr_fail='; '.join(corr[:3]) or None,
@@ -545,7 +616,7 @@ class C07(core.Property):
     w = self._conv_w(case['w'], case['wkind'])
     fw = F(int(case['w'])) if case['wkind'] == 'int' else F(case['w'])
     snap = self._snapshot(trees)
-    x = [F(v) for l in case['trees'][0] for v in l]
+    x = [v for l in self._scaled(case)[0] for v in l]
     problems, corr, key = [], [], None
 
     def fail(k, msg):
@@ -587,7 +658,7 @@ class C07(core.Property):
         if not (abs(got[k] - float(model[k])) <= tol(abs(F(model[k])), model[k])):
           corr.append(f'coordinate {k}: implementation {got[k]} vs model {model[k]}')
           break
-    tags = (f'op={op}', 'w=0' if fw == 0 else 'w>0', f'wkind={case["wkind"]}')
+    tags = (f'op={op}', 'w=0' if fw == 0 else 'w>0', f'wkind={case["wkind"]}', f'scale=2^{case.get("scale", 0)}')
     return Outcome(oracle_fail='; '.join(problems[:4]) or None, corr_fail='; '.join(corr[:3]) or None,
                    key=key, nontrivial=any(v != 0 for v in x) and fw not in (0, 1), tags=tags,
                    detail={'impl': got, 'model': model})
